@@ -1662,3 +1662,39 @@ def unit_mismatches(f: FuncInfo):
         if b is not None and e is not None:
             out.append((n, b, e))
     return out
+
+
+# ---------------------------------------------------------------------------------------------------------------------- S20
+def stale_snapshot_updates(f: FuncInfo):
+    """Shared rule S20: [(loop, assignment, snapshot name, attribute text)] - inside a loop, `<x>.A = <expr built from S>` where S is a local
+    bound before the loop to `<x>.A` (a snapshot of the attribute) and never rebound in the loop: every iteration starts again from the
+    state before the loop, so the update of an earlier iteration is overwritten by the next one and only the last survives."""
+    out = []
+    if isinstance(f.node, ast.Lambda):
+        return out
+    f._s20_examined = 0
+    binds: dict[str, list] = {}
+    for a in own_nodes(f.node):
+        tg = a.targets if isinstance(a, ast.Assign) else [a.target] if isinstance(a, (ast.AnnAssign, ast.AugAssign, ast.NamedExpr)) and getattr(a, "value", None) is not None else []
+        for t in tg:
+            if isinstance(t, ast.Name):
+                binds.setdefault(t.id, []).append(a)
+    for lp in (x for x in own_nodes(f.node) if isinstance(x, (ast.For, ast.While))):
+        inside = {id(y) for y in ast.walk(lp)}
+        for a in (y for y in ast.walk(lp) if isinstance(y, ast.Assign) and len(y.targets) == 1 and isinstance(y.targets[0], ast.Attribute)):
+            f._s20_examined += 1
+            attr = norm(a.targets[0])
+            for nm in {y.id for y in ast.walk(a.value) if isinstance(y, ast.Name)}:
+                bs = binds.get(nm, [])
+                if not bs or any(id(b) in inside for b in bs):
+                    continue  # rebound in the loop: refreshed
+                if not all(norm(getattr(b, "value", None)) in (attr, f"tuple({attr})", f"list({attr})") for b in bs if getattr(b, "value", None) is not None):
+                    continue
+                # the assignment can run in more than one iteration (no break / return follows it in its block)
+                blk_owner = getattr(a, "_parent", None)
+                blk = next((getattr(blk_owner, fld) for fld in ("body", "orelse") if isinstance(getattr(blk_owner, fld, None), list) and a in getattr(blk_owner, fld)), [])
+                after = blk[blk.index(a) + 1:] if a in blk else []
+                if any(isinstance(y, (ast.Break, ast.Return)) for st in after for y in ast.walk(st)):
+                    continue
+                out.append((lp, a, nm, attr))
+    return out
